@@ -944,6 +944,41 @@ def build_source(table):
     fields = [{'name': n, 'type': t} for n, t in table['fields']]
     if table.get('kind') == 'iter':
         return [dict(r) for r in copy.deepcopy(table['rows'])]
+    if table.get('kind') == 'package':
+        # a resource of a valid data package in a shape dataflows itself never writes
+        import csv as csv_
+        import json as json_
+        import os as os_
+        dirn = 'pkg_' + table['name']
+        os_.makedirs(dirn, exist_ok=True)
+        names = [n for n, _ in table['fields']]
+        rows = table['rows']
+
+        def write(fn, part, header):
+            with open(os_.path.join(dirn, fn), 'w', newline='', encoding='utf-8') as f:
+                w = csv_.writer(f)
+                if header:
+                    w.writerow(names)
+                for r in part:
+                    w.writerow(['' if r[n] is None else r[n] for n in names])
+        res = {'name': table['name'], 'schema': {'fields': copy.deepcopy(fields)}}
+        shape = table['pkg_shape']
+        if shape == 'inline':
+            res['data'] = [dict(r) for r in rows]
+        elif shape == 'multipart':
+            k = max(1, len(rows) // 2)
+            write('part1.csv', rows[:k], True)
+            write('part2.csv', rows[k:], False)
+            res['path'] = ['part1.csv', 'part2.csv']
+        else:
+            write('part1.csv', rows, True)
+            res['path'] = 'part1.csv'
+            for f in res['schema']['fields']:
+                if f['type'] == 'string':
+                    del f['type']       # Table Schema: the type defaults to string
+        with open(os_.path.join(dirn, 'datapackage.json'), 'w') as f:
+            json_.dump({'name': 'valid-package', 'resources': [res]}, f)
+        return lab.df().load(os_.path.join(dirn, 'datapackage.json'), resources=table['name'])
     if table.get('kind') == 'csv':
         # the most common source: a CSV file loaded with load()'s defaults (schema inferred, cells NOT cast)
         path = table['name'] + '.csv'
